@@ -550,6 +550,8 @@ static var Slice_Iter_Init(var self) {
   struct Slice* s = self;
   struct Range* r = s->range;
   
+  if (Range_Iter_Init(r) is Terminal) { return Terminal; }
+  
   if (r->step > 0) {
     var curr = iter_init(s->iter);
     for(int64_t i = 0; i < r->start; i++) {
@@ -572,6 +574,8 @@ static var Slice_Iter_Init(var self) {
 static var Slice_Iter_Next(var self, var curr) {
   struct Slice* s = self;
   struct Range* r = s->range;
+  
+  if (Range_Iter_Next(r, r->value) is Terminal) { return Terminal; }
   
   if (r->step > 0) {
     for (int64_t i = 0; i < r->step; i++) {
@@ -597,9 +601,12 @@ static var Slice_Iter_Last(var self) {
   struct Slice* s = self;
   struct Range* r = s->range;
   
+  var last = Range_Iter_Last(r);
+  if (last is Terminal) { return Terminal; }
+  
   if (r->step > 0) {
     var curr = iter_last(s->iter);
-    for(int64_t i = 0; i < (int64_t)len(s->iter)-r->stop; i++) {
+    for(int64_t i = 0; i < (int64_t)len(s->iter)-1-c_int(last); i++) {
       curr = iter_prev(s->iter, curr);
     }
     return curr;
@@ -607,7 +614,7 @@ static var Slice_Iter_Last(var self) {
   
   if (r->step < 0) {
     var curr = iter_init(s->iter);
-    for(int64_t i = 0; i < r->start; i++) {
+    for(int64_t i = 0; i < c_int(last); i++) {
       curr = iter_next(s->iter, curr);
     }
     return curr;
@@ -619,6 +626,8 @@ static var Slice_Iter_Last(var self) {
 static var Slice_Iter_Prev(var self, var curr) {
   struct Slice* s = self;
   struct Range* r = s->range;
+  
+  if (Range_Iter_Prev(r, r->value) is Terminal) { return Terminal; }
   
   if (r->step > 0) {
     for (int64_t i = 0; i < r->step; i++) {
